@@ -98,7 +98,10 @@ def run(ctx):
         ctx.ok('R20.3', 'no raw-descriptor readiness gate in front of buffered reads', wt.where())
 
     # ---- R20.4 callback: one send per Bitmap ---------------------------------------------------------------
-    cb = ctx.body(CALLBACK)
+    # (the event callback is the closure created inside the receive-thread closure - or inside a method the thread closure only calls, which
+    # the inliner has merged into it)
+    cands = ctx.prog.closures_of(ctx.body(THREAD).path)
+    cb = cands[0] if len(cands) == 1 else ctx.body(CALLBACK)
     n_b = 0
     for path, st in feasible_paths(cb, P):
         kind = None
